@@ -269,9 +269,9 @@ def mem_available_gb():
 
 
 class Ctx:
-    def __init__(self, prop, tier, seed):
+    def __init__(self, prop, tier, seed, suffix=""):
         self.prop, self.tier, self.seed = prop, tier, seed
-        self.scratch = os.path.join(SCRATCH_ROOT, "%s.%s" % (prop, tier))
+        self.scratch = os.path.join(SCRATCH_ROOT, "%s.%s%s" % (prop, tier, suffix))
         self.hdir = os.path.join(self.scratch, "h")
         self.target = os.path.join(self.scratch, "target")
         self.logs = os.path.join(self.scratch, "logs")
@@ -296,16 +296,19 @@ class Ctx:
         return "%s::verif_%s::%s" % (mod, self.prop.lower(), h.name)
 
     # native generator step (tables produced by the repository's own builder code)
-    def run_gen(self, args, timeout=900):
+    def run_gen(self, args, timeout=900, verif_cfg=False):
         gen_dir = os.path.join(VERIF, "gen")
         env = dict(self.env)
-        env["RUSTFLAGS"] = (env.get("RUSTFLAGS", "") + " --cfg sudachi_verif").strip()
+        if verif_cfg:
+            env["RUSTFLAGS"] = (env.get("RUSTFLAGS", "") + " --cfg sudachi_verif").strip()
         env["CARGO_TARGET_DIR"] = os.path.join(self.scratch, "gen-target")
         shutil.copy(os.path.join(REPO, "Cargo.lock"), os.path.join(gen_dir, "Cargo.lock"))
-        rc, out, to, dt = run_cmd(["cargo", "run", "--offline", "-q", "--release", "--"] + args, gen_dir, env,
-                                  timeout, logf=os.path.join(self.logs, "gen.log"))
+        p = subprocess.run(["cargo", "run", "--offline", "-q", "--"] + args, cwd=gen_dir, env=env, timeout=timeout,
+                           stdout=subprocess.PIPE, stderr=subprocess.PIPE, text=True)
+        rc, out, to = p.returncode, p.stdout, False
+        open(os.path.join(self.logs, "gen.log"), "a").write(p.stderr[-20000:])
         if rc != 0 or to:
-            log(out[-3000:])
+            log(p.stderr[-3000:])
             raise Inconclusive("generator failed (rc=%s)" % rc)
         return out
 
@@ -433,44 +436,85 @@ def schedule(ctx, harnesses, jobs):
     return done
 
 
-def playback(ctx, h):
-    """Replay the counterexample of a failed harness natively (dev profile).
+MAX_REPLAYS = 3
 
-    Returns (reproduced: bool|None, info dict)."""
+
+def gen_playback_test(ctx, h):
+    """Ask Kani for the concrete values of the first failing check -> (test name, test source, values) or None."""
     cmd = ctx.kani_cmd(h, ["-Z", "concrete-playback", "--concrete-playback=print"])
-    rc, out, to, dt = run_cmd(cmd, REPO, ctx.env, h.timeout_s * 2 + 120, h.mem_gb,
+    rc, out, to, dt = run_cmd(cmd, REPO, ctx.env, h.timeout_s * 2 + 120, max(24, 3 * h.mem_gb),
                               os.path.join(ctx.logs, h.name + ".playback-gen.log"))
     tests = re.findall(r"```\n(.*?)```", out, re.S)
     failing = [t for t in tests if "Check for `cover`" not in t]
     if not failing:
-        return None, {"reason": "Kani produced no concrete playback test for the failure"}
+        return None
     test = failing[0]
-    m = re.search(r"fn (kani_concrete_playback_\w+)\(", test)
-    tname = m.group(1)
+    tname = re.search(r"fn (kani_concrete_playback_\w+)\(", test).group(1)
     vals = re.search(r"let concrete_vals.*?\];", test, re.S).group(0)
-    path = os.path.join(ctx.hdir, h.module + ".rs")
+    return tname, test, vals
+
+
+def insert_tests(ctx, module, tests):
+    path = os.path.join(ctx.hdir, module + ".rs")
     src = open(path).read()
-    # append the test inside the harness module (last closing brace of the file)
-    idx = src.rstrip().rfind("}")
-    new = src[:idx] + "\n" + test + "\n}\n"
-    open(path, "w").write(new)
+    idx = src.rstrip().rfind("}")  # tests go inside the (last) harness module of the file
+    open(path, "w").write(src[:idx] + "\n" + "\n".join(tests) + "\n}\n")
+    return path, src
+
+
+def run_playback(ctx, package, names, tag):
+    """Run generated tests natively (dev profile, debug assertions on) -> {test name: (reproduced, panic text)}"""
     env = dict(ctx.env, CARGO_TARGET_DIR=os.path.join(ctx.scratch, "playback-target"))
-    info = {"test": tname, "concrete_vals": vals, "profiles": {}}
-    reproduced = False
-    for profile, extra in (("dev", []),):
-        cmd = ["cargo", "kani", "playback", "-Z", "concrete-playback", "-p", h.package] + extra + ["--", tname]
-        rc, o2, to, dt = run_cmd(cmd, REPO, env, 1800, None, os.path.join(ctx.logs, h.name + ".playback-%s.log" % profile))
-        m = re.search(r"test result: (\w+)\. (\d+) passed; (\d+) failed", o2)
-        if m and int(m.group(3)) >= 1:
-            pm = re.search(r"panicked at (.*?):\n(.*?)\n", o2)
-            info["profiles"][profile] = {"reproduced": True, "panic": (pm.group(1) + ": " + pm.group(2)) if pm else ""}
-            reproduced = True
-        elif m and int(m.group(2)) >= 1:
-            info["profiles"][profile] = {"reproduced": False}
+    cmd = ["cargo", "kani", "playback", "-Z", "concrete-playback", "-p", package, "--", "kani_concrete_playback"]
+    rc, out, to, dt = run_cmd(cmd, REPO, env, 2400, None, os.path.join(ctx.logs, "playback-%s.log" % tag))
+    res = {}
+    for n in names:
+        m = re.search(r"test \S*%s \.\.\. (\w+)" % re.escape(n), out)
+        if not m:
+            res[n] = (None, out[-1200:])
+        elif m.group(1) == "FAILED":
+            pm = re.search(r"---- \S*%s stdout ----\n(.*?)(?:\nstack backtrace|\n\n)" % re.escape(n), out, re.S)
+            res[n] = (True, (pm.group(1).strip() if pm else "")[:600])
         else:
-            info["profiles"][profile] = {"reproduced": None, "tail": o2[-1500:]}
-    open(path, "w").write(src)
-    return reproduced, info
+            res[n] = (False, "")
+    return res
+
+
+def playback_batch(ctx, failed):
+    """Replay up to MAX_REPLAYS failing harnesses natively; -> {harness name: (reproduced|None, info)}"""
+    out = {}
+    todo = failed[:MAX_REPLAYS]
+    gens = {}
+    threads = []
+    for h in todo:
+        t = threading.Thread(target=lambda h=h: gens.__setitem__(h.name, gen_playback_test(ctx, h)))
+        t.start()
+        threads.append(t)
+    for t in threads:
+        t.join()
+    bypkg = {}
+    for h in todo:
+        g = gens.get(h.name)
+        if not g:
+            out[h.name] = (None, {"reason": "Kani produced no concrete playback test for the failure"})
+            continue
+        bypkg.setdefault(h.package, []).append((h, g))
+    for pkg, items in bypkg.items():
+        saved = {}
+        bymod = {}
+        for h, g in items:
+            bymod.setdefault(h.module, []).append(g[1])
+        for mod, tests in bymod.items():
+            path, src = insert_tests(ctx, mod, tests)
+            saved[path] = src
+        res = run_playback(ctx, pkg, [g[0] for _, g in items], pkg)
+        for path, src in saved.items():
+            open(path, "w").write(src)
+        for h, g in items:
+            rep, panic = res[g[0]]
+            out[h.name] = (rep, {"test": g[0], "concrete_vals": g[2], "profile": "dev (debug assertions on)",
+                                 "reproduced": rep, "panic": panic})
+    return out
 
 
 def decide(prop, tier, seed, keep=False, only=None, jobs=None):
@@ -488,6 +532,7 @@ def decide(prop, tier, seed, keep=False, only=None, jobs=None):
     note = None
     try:
         harnesses = prepare(ctx, spec, findings)
+        shutil.rmtree(os.path.join(VERIF, "replays", prop), ignore_errors=True)
         if only:
             harnesses = [h for h in harnesses if any(o in h.name for o in only)]
         log("== %s tier=%s seed=%d: %d harnesses; building /repo working tree with Kani" % (prop, tier, seed, len(harnesses)))
@@ -497,6 +542,15 @@ def decide(prop, tier, seed, keep=False, only=None, jobs=None):
             jobs = 10 if tier == "quick" else 12
         schedule(ctx, harnesses, jobs)
         fmap = {f["id"]: f for f in findings}
+        failed = [h for h in harnesses if not h.finding and h.result["verdict"] == "fail"]
+        for h in failed:
+            log("   counterexample in %s: %s" % (
+                h.name, "; ".join("%s @ %s" % (c["description"], c["location"].split(" in function")[0]) for c in h.result["failed_checks"][:3])))
+        pb = {}
+        if failed:
+            log("   replaying %d of %d counterexample(s) natively (cargo kani playback)" % (min(len(failed), MAX_REPLAYS), len(failed)))
+            pb = playback_batch(ctx, failed)
+        any_reproduced = any(v[0] for v in pb.values())
         for h in harnesses:
             r = h.result
             if h.finding:
@@ -509,24 +563,27 @@ def decide(prop, tier, seed, keep=False, only=None, jobs=None):
                     r["known_finding_gone"] = f["id"]
                 continue
             if r["verdict"] == "fail":
-                log("   counterexample in %s: %s -- replaying natively" % (
-                    h.name, "; ".join("%s @ %s" % (c["description"], c["location"]) for c in r["failed_checks"][:3])))
-                rep, info = playback(ctx, h)
-                r["replay"] = info
-                if rep:
-                    os.makedirs(os.path.join(VERIF, "replays", prop), exist_ok=True)
-                    rp = os.path.join(VERIF, "replays", prop, h.name + ".json")
-                    json.dump({"property": prop, "harness": h.name, "module": h.module, "package": h.package,
-                               "tier": tier, "failed_checks": r["failed_checks"], "replay": info,
-                               "harness_file": os.path.join("kani", prop, h.module + ".rs"),
-                               "how": "bin/check %s --replay %s" % (prop, rp)}, open(rp, "w"), indent=1)
-                    lines.append("VIOLATION property=%s replay=%s" % (prop, rp))
-                    replays.append(rp)
-                    status = max(status, 1)
+                if h.name in pb:
+                    rep, info = pb[h.name]
+                    r["replay"] = info
+                    if rep:
+                        os.makedirs(os.path.join(VERIF, "replays", prop), exist_ok=True)
+                        rp = os.path.join(VERIF, "replays", prop, h.name + ".json")
+                        json.dump({"property": prop, "harness": h.name, "module": h.module, "package": h.package,
+                                   "tier": tier, "seed": seed, "failed_checks": r["failed_checks"], "replay": info,
+                                   "harness_file": os.path.join("kani", prop, h.module + ".rs"),
+                                   "how": "bin/check %s --replay %s" % (prop, rp)}, open(rp, "w"), indent=1)
+                        lines.append("VIOLATION property=%s replay=%s" % (prop, rp))
+                        replays.append(rp)
+                        status = 1
+                    else:
+                        r["verdict"] = "inconclusive"
+                        r["reason"] = "counterexample did not reproduce natively (harness/stub/model suspect)"
+                        if status == 0:
+                            status = 2
                 else:
-                    r["verdict"] = "inconclusive"
-                    r["reason"] = "counterexample did not reproduce natively (harness/stub/model suspect)"
-                    if status == 0:
+                    r["replay"] = {"reason": "not replayed (replay budget %d per run); solver counterexample only" % MAX_REPLAYS}
+                    if not any_reproduced and status == 0:
                         status = 2
             if r["verdict"] == "inconclusive":
                 log("   INCONCLUSIVE %s: %s" % (h.name, r.get("reason")))
@@ -605,37 +662,27 @@ def write_evidence(ctx, spec, harnesses, wall, build_s, status, replays, note):
 
 
 def replay_file(prop, path):
-    """Re-run a stored counterexample against /repo's current tree."""
+    """Re-run a stored counterexample (concrete harness inputs) against /repo's current tree."""
     rp = json.load(open(path))
     spec = load_spec(prop)
-    ctx = Ctx(prop, rp.get("tier", "quick"), 0)
-    ctx.scratch += ".replay"
-    ctx.__init__  # noqa
-    ctx.hdir = os.path.join(ctx.scratch, "h")
-    ctx.target = os.path.join(ctx.scratch, "target")
-    ctx.logs = os.path.join(ctx.scratch, "logs")
-    ctx.env = dict(BASE_ENV, SUDACHI_VERIF_DIR=ctx.hdir)
-    harnesses = prepare(ctx, spec, [])
-    test = "#[test]\nfn %s() {\n    %s\n    kani::concrete_playback_run(concrete_vals, %s);\n}\n" % (
-        rp["replay"]["test"], rp["replay"]["concrete_vals"], rp["harness"])
-    path_rs = os.path.join(ctx.hdir, rp["module"] + ".rs")
-    src = open(path_rs).read()
-    idx = src.rstrip().rfind("}")
-    open(path_rs, "w").write(src[:idx] + "\n" + test + "\n}\n")
-    env = dict(ctx.env, CARGO_TARGET_DIR=os.path.join(ctx.scratch, "playback-target"))
-    cmd = ["cargo", "kani", "playback", "-Z", "concrete-playback", "-p", rp["package"], "--", rp["replay"]["test"]]
-    rc, out, to, dt = run_cmd(cmd, REPO, env, 1800)
-    shutil.rmtree(ctx.scratch, ignore_errors=True)
-    m = re.search(r"test result: (\w+)\. (\d+) passed; (\d+) failed", out)
-    if m and int(m.group(3)) >= 1:
-        pm = re.search(r"panicked at (.*?):\n(.*?)\n", out)
-        log("replay reproduces: %s" % ((pm.group(1) + ": " + pm.group(2)) if pm else "test failed"))
+    ctx = Ctx(prop, rp.get("tier", "quick"), rp.get("seed", 0), suffix=".replay")
+    try:
+        prepare(ctx, spec, [])
+        test = "#[test]\nfn %s() {\n    %s\n    kani::concrete_playback_run(concrete_vals, %s);\n}\n" % (
+            rp["replay"]["test"], rp["replay"]["concrete_vals"], rp["harness"])
+        insert_tests(ctx, rp["module"], [test])
+        res = run_playback(ctx, rp["package"], [rp["replay"]["test"]], "replay")
+    finally:
+        shutil.rmtree(ctx.scratch, ignore_errors=True)
+    rep, panic = res[rp["replay"]["test"]]
+    if rep:
+        log("replay reproduces on the current tree: %s" % panic)
         log("VIOLATION property=%s replay=%s" % (prop, path))
         return 1
-    if m:
+    if rep is False:
         log("replay passes on the current tree (violation not present)")
         return 0
-    log(out[-3000:])
+    log(panic)
     return 2
 
 
